@@ -96,8 +96,8 @@ def axioms_of(assumptions):
         if txt.startswith("Closed under"):
             continue
         for line in txt.splitlines()[1:]:
-            m = re.match(r"^([A-Za-z0-9_'.]+)\s*:", line)
-            if m:
+            m = re.match(r"^([A-Za-z_][A-Za-z0-9_'.]*)\s*(:|$)", line)
+            if m and not line.startswith(" "):
                 ax.add(m.group(1))
     return sorted(ax)
 
@@ -311,7 +311,11 @@ class Ctx:
                                dict(kind="proof-broken", file=str(rp), log=r["log"][-4000:]),
                                found_input=False)
             for a in axioms_of(r["assumptions"]):
-                tb.add("axiom: " + a)
+                if a.startswith(("PrimFloat.", "PrimInt63.", "Uint63.")):
+                    tb.add("primitive: Coq's native binary64 / 63-bit integer operations (PrimFloat.*, PrimInt63.*), "
+                           "listed by Print Assumptions because they have no Gallina body")
+                else:
+                    tb.add("axiom: " + a)
             self.notes.setdefault("theorems", []).extend(r["theorems"])
             self.notes.setdefault("print_assumptions", {}).update(
                 {k: v[:1500] for k, v in r["assumptions"].items()})
